@@ -17,10 +17,15 @@ import (
 //
 // Type-name codes: 0 = "", 1..99 = "T<k>", 100+i = reflect name of V<i>.
 
-type V1 []int
-type V2 []int
-type V3 []int
-type V4 []int
+type payload struct {
+	Tags []int `json:"tags"`
+	Opt  int   `json:"opt,omitempty"`
+}
+
+type V1 payload
+type V2 payload
+type V3 payload
+type V4 payload
 
 func tyName(k int) string {
 	switch {
@@ -70,18 +75,24 @@ func showCalls(l [][2]string) string {
 }
 
 func dataToList(d json.RawMessage) string {
-	var l []int
-	if err := json.Unmarshal(d, &l); err != nil {
+	var p payload
+	if err := json.Unmarshal(d, &p); err != nil {
 		return "!" + string(d)
 	}
-	return showNatList(l)
+	return showNatList(p.Tags)
 }
 
-func listToData(l []int) json.RawMessage {
+func dataOpt(d json.RawMessage) int {
+	var p payload
+	_ = json.Unmarshal(d, &p)
+	return p.Opt
+}
+
+func listToData(l []int, opt int) json.RawMessage {
 	if l == nil {
 		l = []int{}
 	}
-	b, _ := json.Marshal(l)
+	b, _ := json.Marshal(payload{Tags: l, Opt: opt})
 	return b
 }
 
@@ -89,33 +100,33 @@ func typedRegister(bus *eb.EventBus, i, j, tag int, calls *[][2]string) (error, 
 	rec := func(in []int) { *calls = append(*calls, [2]string{fmt.Sprint(tag), showNatList(in)}) }
 	switch [2]int{i, j} {
 	case [2]int{1, 2}:
-		return eb.RegisterUpcast(bus, func(v V1) V2 { rec(v); return append(V2(append([]int{}, v...)), tag) }), true
+		return eb.RegisterUpcast(bus, func(v V1) V2 { rec(v.Tags); return V2{Tags: append(append([]int{}, v.Tags...), tag), Opt: v.Opt} }), true
 	case [2]int{1, 3}:
-		return eb.RegisterUpcast(bus, func(v V1) V3 { rec(v); return append(V3(append([]int{}, v...)), tag) }), true
+		return eb.RegisterUpcast(bus, func(v V1) V3 { rec(v.Tags); return V3{Tags: append(append([]int{}, v.Tags...), tag), Opt: v.Opt} }), true
 	case [2]int{1, 4}:
-		return eb.RegisterUpcast(bus, func(v V1) V4 { rec(v); return append(V4(append([]int{}, v...)), tag) }), true
+		return eb.RegisterUpcast(bus, func(v V1) V4 { rec(v.Tags); return V4{Tags: append(append([]int{}, v.Tags...), tag), Opt: v.Opt} }), true
 	case [2]int{2, 1}:
-		return eb.RegisterUpcast(bus, func(v V2) V1 { rec(v); return append(V1(append([]int{}, v...)), tag) }), true
+		return eb.RegisterUpcast(bus, func(v V2) V1 { rec(v.Tags); return V1{Tags: append(append([]int{}, v.Tags...), tag), Opt: v.Opt} }), true
 	case [2]int{2, 3}:
-		return eb.RegisterUpcast(bus, func(v V2) V3 { rec(v); return append(V3(append([]int{}, v...)), tag) }), true
+		return eb.RegisterUpcast(bus, func(v V2) V3 { rec(v.Tags); return V3{Tags: append(append([]int{}, v.Tags...), tag), Opt: v.Opt} }), true
 	case [2]int{2, 4}:
-		return eb.RegisterUpcast(bus, func(v V2) V4 { rec(v); return append(V4(append([]int{}, v...)), tag) }), true
+		return eb.RegisterUpcast(bus, func(v V2) V4 { rec(v.Tags); return V4{Tags: append(append([]int{}, v.Tags...), tag), Opt: v.Opt} }), true
 	case [2]int{3, 1}:
-		return eb.RegisterUpcast(bus, func(v V3) V1 { rec(v); return append(V1(append([]int{}, v...)), tag) }), true
+		return eb.RegisterUpcast(bus, func(v V3) V1 { rec(v.Tags); return V1{Tags: append(append([]int{}, v.Tags...), tag), Opt: v.Opt} }), true
 	case [2]int{3, 2}:
-		return eb.RegisterUpcast(bus, func(v V3) V2 { rec(v); return append(V2(append([]int{}, v...)), tag) }), true
+		return eb.RegisterUpcast(bus, func(v V3) V2 { rec(v.Tags); return V2{Tags: append(append([]int{}, v.Tags...), tag), Opt: v.Opt} }), true
 	case [2]int{3, 4}:
-		return eb.RegisterUpcast(bus, func(v V3) V4 { rec(v); return append(V4(append([]int{}, v...)), tag) }), true
+		return eb.RegisterUpcast(bus, func(v V3) V4 { rec(v.Tags); return V4{Tags: append(append([]int{}, v.Tags...), tag), Opt: v.Opt} }), true
 	case [2]int{4, 1}:
-		return eb.RegisterUpcast(bus, func(v V4) V1 { rec(v); return append(V1(append([]int{}, v...)), tag) }), true
+		return eb.RegisterUpcast(bus, func(v V4) V1 { rec(v.Tags); return V1{Tags: append(append([]int{}, v.Tags...), tag), Opt: v.Opt} }), true
 	case [2]int{4, 2}:
-		return eb.RegisterUpcast(bus, func(v V4) V2 { rec(v); return append(V2(append([]int{}, v...)), tag) }), true
+		return eb.RegisterUpcast(bus, func(v V4) V2 { rec(v.Tags); return V2{Tags: append(append([]int{}, v.Tags...), tag), Opt: v.Opt} }), true
 	case [2]int{4, 3}:
-		return eb.RegisterUpcast(bus, func(v V4) V3 { rec(v); return append(V3(append([]int{}, v...)), tag) }), true
+		return eb.RegisterUpcast(bus, func(v V4) V3 { rec(v.Tags); return V3{Tags: append(append([]int{}, v.Tags...), tag), Opt: v.Opt} }), true
 	case [2]int{1, 1}:
-		return eb.RegisterUpcast(bus, func(v V1) V1 { rec(v); return append(V1(append([]int{}, v...)), tag) }), true
+		return eb.RegisterUpcast(bus, func(v V1) V1 { rec(v.Tags); return V1{Tags: append(append([]int{}, v.Tags...), tag), Opt: v.Opt} }), true
 	case [2]int{2, 2}:
-		return eb.RegisterUpcast(bus, func(v V2) V2 { rec(v); return append(V2(append([]int{}, v...)), tag) }), true
+		return eb.RegisterUpcast(bus, func(v V2) V2 { rec(v.Tags); return V2{Tags: append(append([]int{}, v.Tags...), tag), Opt: v.Opt} }), true
 	}
 	return nil, false
 }
@@ -169,13 +180,14 @@ func upcastDomain(lines []string) []string {
 				err = e
 			} else {
 				fn := func(data json.RawMessage) (json.RawMessage, string, error) {
-					var l []int
-					_ = json.Unmarshal(data, &l)
+					var pl payload
+					_ = json.Unmarshal(data, &pl)
+					l := pl.Tags
 					calls = append(calls, [2]string{fmt.Sprint(tag), showNatList(l)})
 					if fails {
 						return nil, "", errors.New("boom")
 					}
-					return listToData(append(append([]int{}, l...), tag)), tyName(ret), nil
+					return listToData(append(append([]int{}, l...), tag), pl.Opt), tyName(ret), nil
 				}
 				err = eb.RegisterUpcastFunc(bus, tyName(src), tyName(dst), fn)
 			}
@@ -186,15 +198,9 @@ func upcastDomain(lines []string) []string {
 		case f[0] == "cleartype" && len(f) == 2:
 			bus.ClearUpcastsForType(tyName(atoi(f[1])))
 			out = append(out, "cleartype")
-		case (f[0] == "replay" && len(f) == 5) || (f[0] == "apply" && len(f) == 3):
-			var off, ts, ty int
-			var d []int
-			if f[0] == "replay" {
-				off, ts, ty, d = atoi(f[1]), atoi(f[2]), atoi(f[3]), natList(f[4])
-			} else {
-				off, ts, ty, d = 1, 1, atoi(f[1]), natList(f[2])
-			}
-			store.ev = &eb.StoredEvent{Offset: eb.Offset(fmt.Sprintf("o%d", off)), Type: tyName(ty), Data: listToData(d), Timestamp: time.Unix(0, int64(ts)).UTC()}
+		case f[0] == "replay" && len(f) == 6:
+			off, ts, ty, d, opt := atoi(f[1]), atoi(f[2]), atoi(f[3]), natList(f[4]), atoi(f[5])
+			store.ev = &eb.StoredEvent{Offset: eb.Offset(fmt.Sprintf("o%d", off)), Type: tyName(ty), Data: listToData(d, opt), Timestamp: time.Unix(0, int64(ts)).UTC()}
 			calls, errCalls = nil, nil
 			var seen *eb.StoredEvent
 			n := 0
@@ -216,15 +222,8 @@ func upcastDomain(lines []string) []string {
 				out = append(out, "!HANG apply does not terminate")
 				return out
 			}
-			if f[0] == "replay" {
-				out = append(out, fmt.Sprintf("seen off=%s ts=%d ty=%d data=%s calls=%s errh=%s",
-					strings.TrimPrefix(string(seen.Offset), "o"), seen.Timestamp.UnixNano(), tyCode(seen.Type), dataToList(seen.Data), showCalls(calls), showCalls(errCalls)))
-			} else {
-				// apply's error kind is not visible through ReplayWithUpcast; report what is:
-				// ok iff the callback saw something other than the stored event or no upcaster ran
-				out = append(out, fmt.Sprintf("apply ty=%d data=%s calls=%s errh=%s",
-					tyCode(seen.Type), dataToList(seen.Data), showCalls(calls), showCalls(errCalls)))
-			}
+			out = append(out, fmt.Sprintf("seen off=%s ts=%d ty=%d data=%s opt=%d calls=%s errh=%s",
+				strings.TrimPrefix(string(seen.Offset), "o"), seen.Timestamp.UnixNano(), tyCode(seen.Type), dataToList(seen.Data), dataOpt(seen.Data), showCalls(calls), showCalls(errCalls)))
 		default:
 			out = append(out, "bad-op "+line)
 		}
